@@ -216,8 +216,12 @@ func (con *Connection) Read(b []byte) (int, error) {
 func (con *Connection) Close() error {
 	log.Debug.Println("Close connection and remove session")
 
-	// Remove session from the context
-	con.context.DeleteSessionForConnection(con.connection)
+	// Remove session from the context – when it is still the session of this
+	// connection. A new connection with the same addresses may have been accepted
+	// already while a handler of this (reset) connection was still running.
+	if s := con.context.GetSessionForConnection(con.connection); s != nil && s.Connection() == net.Conn(con) {
+		con.context.DeleteSessionForConnection(con.connection)
+	}
 
 	return con.connection.Close()
 }
